@@ -14,7 +14,7 @@ fi
 git -C "$W/repo" checkout -q -- . ; git -C "$W/repo" pull -q 2>/dev/null
 git -C "$W/verif" checkout -q -- . ; git -C "$W/verif" pull -q 2>/dev/null
 sed -i "s#path = \"/repo\"#path = \"$W/repo\"#" "$W/verif/harness/Cargo.toml"
-git -C "$W/repo" apply "$patch" || { echo "patch does not apply"; exit 2; }
+git -C "$W/repo" apply "$patch" 2>/dev/null || git -C "$W/repo" apply --3way "$patch" || { echo "patch does not apply"; exit 2; }
 cd "$W/verif"
 for prop in "$@"; do
   log=$W/$(basename $(dirname $(dirname "$patch")))-$(basename $(dirname "$patch"))-$prop.log
